@@ -845,3 +845,19 @@ package iavl
 //@   summary
 //@ func convertInnerOps(path) (ops)
 //@   summary
+
+// ---------------------------------------------------------------- mutable_tree.go: LoadVersion discards the uncommitted working state (C01/C07/C09)
+//
+// Loading a version replaces the working tree; the uncommitted fast-index
+// overlay belongs to the tree that is discarded and must be empty by the time
+// the loaded tree is used (the index upgrade that follows reads through it).
+//@ func (*MutableTree).enableFastStorageAndCommitIfNotEnabled(tree) (ok, err)
+//@   summary
+//@ func (*MutableTree).LoadVersion(tree, targetVersion) (v, err)
+//@   props C01 C07 C09
+//@   nosafety
+//@   requires tree != nil && tree.ndb != nil && tree.ndb.db != nil
+//@   requires tree.ndb.legacyLatestVersion == 0 - 1 && tree.ndb.firstVersion > 0 && tree.ndb.latestVersion > 0
+//@   callsite enableFastStorageAndCommitIfNotEnabled@2 [overlay-reset] tree.unsavedFastNodeAdditions != nil && tree.unsavedFastNodeRemovals != nil && smhas[tree.unsavedFastNodeAdditions] == emptyKeys && smhas[tree.unsavedFastNodeRemovals] == emptyKeys
+//@   callsite enableFastStorageAndCommitIfNotEnabled@2 [tree-replaced] tree.ImmutableTree != nil && tree.ImmutableTree.version == targetVersion && tree.lastSaved != nil && tree.lastSaved != tree.ImmutableTree
+//@   modifies *
